@@ -411,6 +411,15 @@ def constrained():
     outer = T('SEQUENCE', fields=[('p', small, 'req'), ('l', lst, 'opt'), ('q', T('OCTETSTRING', [('I', CTX, 0)], size=(2, 2)), 'opt')])
     out.append((dict(outer, violating=[{'p': 9}, {'p': 1, 'l': [1, 2, 3]}, {'p': 1, 'q': b'x'}, {'p': 1, 'l': []}]),
                 {'p': 1, 'l': [5], 'q': b'xy'}))
+    # a value constraint on an OPTIONAL member applies when the member is there
+    rec2 = T('SEQUENCE', fields=[('a', T('INTEGER'), 'opt'), ('b', T('BOOLEAN'), 'req')], within={'a': (1, 5)})
+    out.append((dict(rec2, violating=[{'a': 9, 'b': True}, {'a': 0, 'b': False}]), {'b': True}))
+    out.append((dict(rec2, violating=[{'a': 6, 'b': True}]), {'a': 5, 'b': False}))
+    rec3 = T('SET', fields=[('a', T('INTEGER'), 'opt'), ('b', T('BOOLEAN', [('I', CTX, 0)]), 'opt')], absent=['b'])
+    out.append((dict(rec3, violating=[{'b': True}, {'a': 1, 'b': False}]), {'a': 1}))
+    # a CHOICE with a constraint of its own: one alternative may not be chosen
+    ch2 = T('CHOICE', fields=[('a', T('INTEGER'), 'req'), ('b', T('BOOLEAN'), 'req')], absent=['a'])
+    out.append((dict(ch2, violating=[('a', 5)]), ('b', True)))
     ch = T('CHOICE', fields=[('i', small, 'req'), ('l', lst, 'req')])
     out.append((dict(ch, violating=[('i', 100), ('l', [])]), ('l', [1])))
     return out
